@@ -126,30 +126,39 @@ theorem runSteps_good (b : Nat) : ∀ (steps : List Step) (cd : Option Nat) (liv
 @[simp] theorem Tab.apply_shape (t : Tab) (evs) : (t.apply evs).shape = t.shape := rfl
 @[simp] theorem Tab.apply_blocks (t : Tab) (evs) : (t.apply evs).blocks = t.blocks := rfl
 
-theorem Tab.Own.of_shape {t t' : Tab} (h : t.Own) (e : t'.shape = t.shape) : t'.Own := by
+theorem Tab.OwnX.of_shape {t t' : Tab} (h : t.OwnX) (e : t'.shape = t.shape) : t'.OwnX := by
   simp only [Tab.shape, Prod.mk.injEq] at e
-  obtain ⟨e1, e2, e3, e4, e5, e6, e7⟩ := e
-  exact ⟨by rw [e1, e3, e4, e5, e6, e2]; exact h.empty, by rw [e1, e3, e2]; exact h.full,
+  obtain ⟨e1, e2, e3, e4, e5, e6, e7, e8⟩ := e
+  exact ⟨by rw [e1, e3, e4, e5, e6, e2, e8]; exact h.empty, by rw [e1, e3, e2]; exact h.full,
          by rw [e6, e5]; exact h.auxArr, by rw [e7]; exact h.sound⟩
 
-theorem inv_apply {t' : Tab} {evs : List Ev} {L R : List Nat} (hown : t'.Own) (hb : t'.bad = 0)
-    (hL : t'.ledger.Perm L) (hg : Good 0 L evs R) (hR : R.Perm t'.blocks) : (t'.apply evs).Inv := by
+theorem Tab.noExt_of_shape {t t' : Tab} (e : t'.shape = t.shape) : t'.noExtents = t.noExtents := by
+  simp only [Tab.shape, Prod.mk.injEq] at e
+  exact e.2.2.2.2.2.2.2
+
+theorem Tab.Inv.toInvX {t : Tab} (h : t.Inv) : t.InvX := ⟨h.toOwnX, h.toBalanced⟩
+theorem Tab.InvX.toInv {t : Tab} (h : t.InvX) (hx : t.noExtents = false) : t.Inv := ⟨⟨h.toOwnX, hx⟩, h.toBalanced⟩
+
+theorem invX_apply {t' : Tab} {evs : List Ev} {L R : List Nat} (hown : t'.OwnX) (hb : t'.bad = 0)
+    (hL : t'.ledger.Perm L) (hg : Good 0 L evs R) (hR : R.Perm t'.blocks) : (t'.apply evs).InvX := by
   have hg' : Good t'.bad t'.ledger evs R := by rw [hb]; exact hg.perm_left hL
   obtain ⟨h1, h2⟩ := Tab.apply_good hg'
-  exact { toOwn := hown.of_shape (Tab.apply_shape _ _), ledger := h2.trans hR, bad := by rw [h1, hb] }
+  exact { toOwnX := hown.of_shape (Tab.apply_shape _ _), ledger := h2.trans hR, bad := by rw [h1, hb] }
 
-theorem Tab.Inv.ledger_nil {t : Tab} (h : t.Inv) (h0 : t.ndim = 0) : t.ledger = [] := by
-  obtain ⟨c, p, a, x, _⟩ := h.empty h0
-  have := h.ledger
-  simpa [Tab.blocks, c, p, a, x, auxBlocks, auxEntryBlocks] using this
-
-theorem Tab.Inv.blocks_nil {t : Tab} (h : t.Inv) (h0 : t.ndim = 0) : t.blocks = [] := by
-  obtain ⟨c, p, a, x, _⟩ := h.empty h0
+theorem Tab.InvX.blocks_nil {t : Tab} (h : t.InvX) (h0 : t.ndim = 0) : t.blocks = [] := by
+  obtain ⟨c, p, a, x, _, _⟩ := h.empty h0
   simp [Tab.blocks, c, p, a, x, auxBlocks, auxEntryBlocks]
 
+theorem Tab.InvX.ledger_nil {t : Tab} (h : t.InvX) (h0 : t.ndim = 0) : t.ledger = [] := by
+  have := h.ledger
+  rw [h.blocks_nil h0] at this
+  simpa using this
+
 theorem Tab.empty_inv : Tab.empty.Inv :=
-  { empty := fun _ => ⟨rfl, rfl, rfl, rfl, rfl⟩, full := fun h => absurd rfl h, auxArr := fun h => absurd rfl h,
-    sound := rfl, ledger := Perm.refl _, bad := rfl }
+  { empty := fun _ => ⟨rfl, rfl, rfl, rfl, rfl, rfl⟩, full := fun h => absurd rfl h, auxArr := fun h => absurd rfl h,
+    sound := rfl, extents := rfl, ledger := Perm.refl _, bad := rfl }
+
+theorem Tab.empty_invX : Tab.empty.InvX := Tab.empty_inv.toInvX
 
 /-! ### net effect of the step programs -/
 
@@ -163,13 +172,20 @@ theorem net_map_a (l : List Nat) : net (l.map .a) = l := by
   | nil => rfl
   | cons x xs ih => simp [net, ih]
 
-theorem net_auxInSteps (aux : List AuxIn) : net (auxInSteps Cfg.repaired aux) = auxEntryBlocks (readAux aux) := by
+/-- `read_fits_core` stores, for every aux value, the size it will later release it with — provided the
+    value block has that size (C20-9) or the file contains no value whose two sizes differ. -/
+theorem net_auxInSteps (c : Cfg) (aux : List AuxIn) (h : c.readAuxExact = true ∨ ∀ e ∈ aux, e.stored = e.raw) :
+    net (auxInSteps c aux) = auxEntryBlocks (readAux aux) := by
   induction aux with
   | nil => rfl
   | cons e es ih =>
-    simp only [auxInSteps, readAux, auxEntryBlocks, flatMap_cons, map_cons] at ih ⊢
-    rw [net_append, ih]
-    by_cases h : e.stored = e.raw <;> simp [Cfg.repaired, net, h]
+    have ih' := ih (h.imp id fun h' e' he' => h' e' (List.mem_cons_of_mem _ he'))
+    simp only [auxInSteps, readAux, auxEntryBlocks, flatMap_cons, map_cons] at ih' ⊢
+    rw [net_append, ih']
+    rcases h with h | h
+    · by_cases h2 : e.stored = e.raw <;> simp [h, net, h2]
+    · have h2 := h e (List.mem_cons_self)
+      by_cases h3 : c.readAuxExact = true <;> simp [h3, net, h2]
 
 theorem net_knotSteps (fa : Option Nat) (dims : List Dim) : net (knotSteps fa dims) = knotBlocks dims := by
   unfold knotSteps knotBlocks
@@ -186,97 +202,159 @@ theorem auxEntryBlocks_append (a b : List Aux) : auxEntryBlocks (a ++ b) = auxEn
 macro "perm_count" : tactic =>
   `(tactic| (simp only [perm_iff_count]; intro x; simp only [count_append, count_cons, count_nil]; omega))
 
+/-! ### programs that run to their end -/
+
+/-- the program runs to its end under the countdown `cd` (no injected allocation failure hits it, no
+    read / GLAM failure is part of it) -/
+def Completes (cd : Option Nat) (steps : List Step) : Prop := (runSteps cd steps []).2.2.2 = true
+
+theorem runSteps_none_ok : ∀ (steps : List Step) (live : List Nat), Step.fail ∉ steps →
+    (runSteps none steps live).2.2.2 = true ∧ (runSteps none steps live).2.2.1 = none := by
+  intro steps
+  induction steps with
+  | nil => intro live _; exact ⟨rfl, rfl⟩
+  | cons s rest ih =>
+    intro live h
+    have hr : Step.fail ∉ rest := fun h' => h (List.mem_cons_of_mem _ h')
+    cases s with
+    | fail => exact absurd (List.mem_cons_self) h
+    | a n => simpa [runSteps, dec] using ih (live ++ [n]) hr
+    | swap raw st => simpa [runSteps, dec] using ih (live ++ [st]) hr
+
+/-- without an injected allocation failure a program without a failure step runs to its end -/
+theorem Completes.of_none {steps : List Step} (h : Step.fail ∉ steps) : Completes none steps :=
+  (runSteps_none_ok steps [] h).1
+
+theorem fail_not_mem_map_a (l : List Nat) : Step.fail ∉ l.map Step.a := by simp
+
 /-! ### building storage from the empty state (read, fit) -/
 
-theorem build_spec {t target : Tab} {cd : Option Nat} {steps : List Step} {n : Nat}
-    (h : t.Inv) (h0 : t.ndim = 0) (hl : target.ledger = t.ledger) (hb : target.bad = t.bad)
-    (hown : target.Own) (hnet : (net steps).Perm target.blocks) :
-    (build true t cd steps target n).tab.Inv ∧
-    ((build true t cd steps target n).res = .ok ∨
-     ((build true t cd steps target n).res = .threw ∧ (build true t cd steps target n).tab.shape = t.shape)) := by
+theorem build_spec {guard : Bool} {t target : Tab} {cd : Option Nat} {steps : List Step} {n : Nat}
+    (h : t.InvX) (h0 : t.ndim = 0) (hl : target.ledger = t.ledger) (hb : target.bad = t.bad)
+    (hown : target.OwnX) (hnet : (net steps).Perm target.blocks) (hg : guard = true ∨ Completes cd steps) :
+    (build guard t cd steps target n).tab.InvX ∧
+    (((build guard t cd steps target n).res = .ok ∧ (build guard t cd steps target n).tab.shape = target.shape) ∨
+     ((build guard t cd steps target n).res = .threw ∧ (build guard t cd steps target n).tab.shape = t.shape)) := by
   have hnil := h.ledger_nil h0
-  obtain ⟨hg, hlive⟩ := runSteps_good 0 steps cd [] []
+  obtain ⟨hgd, hlive⟩ := runSteps_good 0 steps cd [] []
   simp only [build]
   split
   · rename_i hok
-    refine ⟨?_, Or.inl rfl⟩
+    refine ⟨?_, Or.inl ⟨rfl, rfl⟩⟩
     have hl' := hlive hok
-    simp only [List.nil_append] at hl' hg
-    refine inv_apply (L := []) hown (by rw [hb, h.bad]) (by rw [hl, hnil]) hg ?_
+    simp only [List.nil_append] at hl' hgd
+    refine invX_apply (L := []) hown (by rw [hb, h.bad]) (by rw [hl, hnil]) hgd ?_
     rw [hl']; simpa using hnet
-  · refine ⟨?_, Or.inr ⟨by simp, by simp⟩⟩
+  · rename_i hno
+    have hguard : guard = true := hg.resolve_right hno
+    subst hguard
+    refine ⟨?_, Or.inr ⟨by simp, by simp⟩⟩
     simp only [if_true]
-    refine inv_apply (L := []) h.toOwn h.bad (by rw [hnil]) ?_ (by rw [h.blocks_nil h0])
-    simp only [List.nil_append, List.append_nil] at hg
+    refine invX_apply (L := []) h.toOwnX h.bad (by rw [hnil]) ?_ (by rw [h.blocks_nil h0])
+    simp only [List.nil_append, List.append_nil] at hgd
     have := Good.frees (b := 0) (R := []) (runSteps cd steps []).2.1
     simp only [List.append_nil] at this
-    exact Good.append hg this
+    exact Good.append hgd this
 
+/-- Outcome of a single-table call: the table is still destructible and leak-free (`InvX`), a throwing
+    call left it unchanged or empty, the call had no undefined behaviour, and a table that has its
+    `extents` keeps them. -/
+structure Spec (t : Tab) (o : Out) : Prop where
+  inv : o.tab.InvX
+  threw : o.res = .threw → o.tab.shape = t.shape ∨ o.tab.isEmpty = true
+  nocrash : o.res ≠ .crash
+  ext : t.noExtents = false → o.tab.noExtents = false
 
-/-- outcome of a single-table call: invariant kept; a throwing call leaves the table unchanged or empty -/
-def Spec (t : Tab) (o : Out) : Prop :=
-  o.tab.Inv ∧ (o.res = .threw → o.tab.shape = t.shape ∨ o.tab.isEmpty = true) ∧ o.res ≠ .crash
+theorem spec_unchanged {t : Tab} {cd : Option Nat} {r : Res} (h : t.InvX) (hr : r ≠ .crash) : Spec t ⟨t, cd, r, []⟩ :=
+  ⟨h, fun _ => Or.inl rfl, hr, id⟩
 
-theorem spec_unchanged {t : Tab} {cd : Option Nat} {r : Res} (h : t.Inv) (hr : r ≠ .crash) : Spec t ⟨t, cd, r, []⟩ :=
-  ⟨h, fun _ => Or.inl rfl, hr⟩
+/-- The circumstances under which `read_fits` keeps the invariant whatever the configuration: the C07 /
+    C20-11 guard is in, or the read runs to its end; C20-9 is in, or no aux value changes size. -/
+def ReadSafe (c : Cfg) (cd : Option Nat) (f : FileDesc) : Prop :=
+  (c.readGuard = true ∨ Completes cd (readSteps c f)) ∧ (c.readAuxExact = true ∨ ∀ e ∈ f.aux, e.stored = e.raw)
 
-theorem read_spec (t : Tab) (cd : Option Nat) (f : FileDesc) (h : t.Inv) : Spec t (read Cfg.repaired t cd f) := by
+theorem read_spec (c : Cfg) (t : Tab) (cd : Option Nat) (f : FileDesc) (h : t.InvX)
+    (hs : t.ndim ≠ 0 ∨ ReadSafe c cd f) : Spec t (read c t cd f) := by
   unfold read
-  simp only [show Cfg.repaired.readGuard = true from rfl]
   split
   · exact spec_unchanged h (by decide)
   · rename_i h0
     have h0 : t.ndim = 0 := by simpa using h0
+    obtain ⟨hs1, hs2⟩ := hs.resolve_left (by simp [h0])
     split
     · exact spec_unchanged h (by decide)
     · rename_i hk
       have hd : f.dims ≠ [] := fun e => hk (Or.inr e)
-      obtain ⟨c, p, a, x, d⟩ := h.empty h0
-      have hown : (readTarget f t).Own := by
+      obtain ⟨cc, p, a, x, d, ne⟩ := h.empty h0
+      have hown : (readTarget f t).OwnX := by
         refine ⟨fun e => ?_, fun _ => ⟨rfl, rfl⟩, fun e => ?_, h.sound⟩
         · exact absurd (List.length_eq_zero_iff.mp e) hd
         · by_cases hk : f.hasKeys <;> simp_all [readTarget]
-      have hnet : (net (readSteps Cfg.repaired f)).Perm (readTarget f t).blocks := by
-        simp only [readSteps, net_append, net_knotSteps, readTarget, Tab.blocks, fixedBlocks, auxBlocks]
+      have hnet : (net (readSteps c f)).Perm (readTarget f t).blocks := by
+        simp only [readSteps, net_append, net_knotSteps, readTarget, Tab.blocks, fixedBlocks, auxBlocks, ne]
         by_cases hk : f.hasKeys <;> by_cases h2 : f.kind = 2 <;>
-          simp only [hk, h2, if_true, if_false, net, net_append, net_auxInSteps, readAux, List.length_map, Bool.false_eq_true,
+          simp only [hk, h2, if_true, if_false, net, net_append, net_auxInSteps c f.aux hs2, readAux, List.length_map, Bool.false_eq_true,
             auxEntryBlocks, List.flatMap_nil, List.length_nil] <;> perm_count
-      have := build_spec (cd := cd) (n := f.dims.length) h h0 (target := readTarget f t) rfl rfl hown hnet
-      obtain ⟨hi, hr⟩ := this
-      refine ⟨hi, ?_, ?_⟩
+      obtain ⟨hi, hr⟩ := build_spec (cd := cd) (n := f.dims.length) h h0 (target := readTarget f t) rfl rfl hown hnet hs1
+      refine ⟨hi, ?_, ?_, ?_⟩
       · intro ht
-        rcases hr with hr | ⟨_, hs⟩
+        rcases hr with ⟨hr, _⟩ | ⟨_, hsh⟩
         · simp [hr] at ht
-        · exact Or.inl hs
-      · rcases hr with hr | ⟨hr, _⟩ <;> simp [hr]
+        · exact Or.inl hsh
+      · rcases hr with ⟨hr, _⟩ | ⟨hr, _⟩ <;> simp [hr]
+      · intro hne
+        rcases hr with ⟨_, hsh⟩ | ⟨_, hsh⟩
+        · have := Tab.noExt_of_shape hsh; simpa [readTarget, hne] using this
+        · have := Tab.noExt_of_shape hsh; simpa [hne] using this
 
-theorem fit_spec (t : Tab) (cd : Option Nat) (a : FitArgs) (h : t.Inv) : Spec t (fit Cfg.repaired t cd a) := by
+/-- `fit`: C20-2 is in, or the table is empty, or the arguments are refused anyway; C20-3 is in, or the
+    fit runs to its end (no allocation failure, GLAM succeeds). -/
+def FitSafe (c : Cfg) (cd : Option Nat) (t : Tab) (a : FitArgs) : Prop :=
+  (c.fitRefuse = true ∨ t.ndim = 0 ∨ a.valid = false ∨ a.dims = []) ∧ (c.fitGuard = true ∨ Completes cd (fitSteps a))
+
+theorem fit_spec (c : Cfg) (t : Tab) (cd : Option Nat) (a : FitArgs) (h : t.InvX) (hs : FitSafe c cd t a) :
+    Spec t (fit c t cd a) := by
+  obtain ⟨hs1, hs2⟩ := hs
   unfold fit
   split
   · exact spec_unchanged h (by decide)
-  · rename_i h0
-    have h0 : t.ndim = 0 := by simpa [Cfg.repaired] using h0
+  · rename_i hr0
     split
     · exact spec_unchanged h (by decide)
     · rename_i hk
       have hd : a.dims ≠ [] := fun e => hk (Or.inr e)
+      have hv : a.valid = true := by
+        cases hv : a.valid
+        · exact absurd (Or.inl (by simp [hv])) hk
+        · rfl
+      have h0 : t.ndim = 0 := by
+        rcases hs1 with h1 | h1 | h1 | h1
+        · by_cases h0 : t.ndim = 0
+          · exact h0
+          · exact absurd ⟨h1, h0⟩ hr0
+        · exact h1
+        · rw [hv] at h1; cases h1
+        · exact absurd h1 hd
       rw [if_neg (by simp [h0])]
-      obtain ⟨c, p, x, y, d⟩ := h.empty h0
-      have hown : (fitTarget a t).Own := by
+      obtain ⟨cc, p, x, y, d, ne⟩ := h.empty h0
+      have hown : (fitTarget a t).OwnX := by
         refine ⟨fun e => ?_, fun _ => ⟨rfl, rfl⟩, fun e => ?_, h.sound⟩
         · exact absurd (List.length_eq_zero_iff.mp e) hd
         · simp_all [fitTarget]
       have hnet : (net (fitSteps a)).Perm (fitTarget a t).blocks := by
-        simp only [fitSteps, net_append, net_map_a, fitTarget, Tab.blocks, p, x, y, auxBlocks, auxEntryBlocks]
+        simp only [fitSteps, net_append, net_map_a, fitTarget, Tab.blocks, p, x, y, ne, auxBlocks, auxEntryBlocks]
         by_cases hg : a.glamOk <;> simp [hg, net]
-      have := build_spec (cd := cd) (n := a.dims.length) h h0 (target := fitTarget a t) rfl rfl hown hnet
-      obtain ⟨hi, hr⟩ := this
-      refine ⟨hi, ?_, ?_⟩
+      obtain ⟨hi, hr⟩ := build_spec (cd := cd) (n := a.dims.length) h h0 (target := fitTarget a t) rfl rfl hown hnet hs2
+      refine ⟨hi, ?_, ?_, ?_⟩
       · intro ht
-        rcases hr with hr | ⟨_, hs⟩
-        · simp [Cfg.repaired, hr] at ht
-        · exact Or.inl hs
-      · rcases hr with hr | ⟨hr, _⟩ <;> simp [Cfg.repaired, hr]
+        rcases hr with ⟨hr, _⟩ | ⟨_, hsh⟩
+        · simp [hr] at ht
+        · exact Or.inl hsh
+      · rcases hr with ⟨hr, _⟩ | ⟨hr, _⟩ <;> simp [hr]
+      · intro hne
+        rcases hr with ⟨_, hsh⟩ | ⟨_, hsh⟩
+        · have := Tab.noExt_of_shape hsh; simpa [fitTarget, hne] using this
+        · have := Tab.noExt_of_shape hsh; simpa [hne] using this
 
 
 theorem findIdx_some {aux : List Aux} {id i : Nat} (h : findIdx aux id = some i) :
@@ -295,38 +373,60 @@ theorem findIdx_some {aux : List Aux} {id i : Nat} (h : findIdx aux id = some i)
 
 /-- run a program on top of what the table holds, then release `fs`: the pattern of the key edits -/
 theorem run_frees_inv {t t' : Tab} {cd : Option Nat} {steps : List Step} {fs : List Nat}
-    (h : t.Inv) (hl : t'.ledger = t.ledger) (hb : t'.bad = t.bad) (hown : t'.Own)
+    (h : t.InvX) (hl : t'.ledger = t.ledger) (hb : t'.bad = t.bad) (hown : t'.OwnX)
     (hok : (runSteps cd steps []).2.2.2 = true)
     (hperm : (net steps ++ t.blocks).Perm (fs ++ t'.blocks)) :
-    (t'.apply ((runSteps cd steps []).1 ++ fs.map .d)).Inv := by
+    (t'.apply ((runSteps cd steps []).1 ++ fs.map .d)).InvX := by
   obtain ⟨hg, hlive⟩ := runSteps_good 0 steps cd [] t.blocks
   have hl' := hlive hok
   simp only [List.nil_append] at hl' hg
   rw [hl'] at hg
-  refine inv_apply (L := t.blocks) (R := t'.blocks) hown (by rw [hb, h.bad]) (by rw [hl]; exact h.ledger) ?_ (Perm.refl _)
+  refine invX_apply (L := t.blocks) (R := t'.blocks) hown (by rw [hb, h.bad]) (by rw [hl]; exact h.ledger) ?_ (Perm.refl _)
   exact Good.append (hg.perm_right hperm) (Good.frees fs)
 
-theorem run_fail_inv {t : Tab} {cd : Option Nat} {steps : List Step} (h : t.Inv) :
-    (t.apply ((runSteps cd steps []).1 ++ (runSteps cd steps []).2.1.map .d)).Inv := by
+/-- the other order (unrepaired `remove_key`): release `fs` first, then run a program to its end -/
+theorem frees_run_inv {t t' : Tab} {cd : Option Nat} {steps : List Step} {fs : List Nat}
+    (h : t.InvX) (hl : t'.ledger = t.ledger) (hb : t'.bad = t.bad) (hown : t'.OwnX)
+    (hok : (runSteps cd steps []).2.2.2 = true) {rest : List Nat}
+    (hsplit : t.blocks.Perm (fs ++ rest)) (hperm : (net steps ++ rest).Perm t'.blocks) :
+    (t'.apply (fs.map .d ++ (runSteps cd steps []).1)).InvX := by
+  obtain ⟨hg, hlive⟩ := runSteps_good 0 steps cd [] rest
+  have hl' := hlive hok
+  simp only [List.nil_append] at hl' hg
+  rw [hl'] at hg
+  refine invX_apply (L := fs ++ rest) (R := t'.blocks) hown (by rw [hb, h.bad]) (by rw [hl]; exact h.ledger.trans hsplit) ?_ (Perm.refl _)
+  exact Good.append (Good.frees fs) (hg.perm_right hperm)
+
+theorem run_fail_inv {t : Tab} {cd : Option Nat} {steps : List Step} (h : t.InvX) :
+    (t.apply ((runSteps cd steps []).1 ++ (runSteps cd steps []).2.1.map .d)).InvX := by
   obtain ⟨hg, _⟩ := runSteps_good 0 steps cd [] t.blocks
   simp only [List.nil_append] at hg
-  exact inv_apply (L := t.blocks) (R := t.blocks) h.toOwn h.bad h.ledger (Good.append hg (Good.frees _)) (Perm.refl _)
+  exact invX_apply (L := t.blocks) (R := t.blocks) h.toOwnX h.bad h.ledger (Good.append hg (Good.frees _)) (Perm.refl _)
 
-theorem writeKey_spec (t : Tab) (cd : Option Nat) (a : KeyArg) (h : t.Inv) : Spec t (writeKey Cfg.repaired t cd a) := by
+/-- `write_key`: C20-1 is in, or the table is not empty, or the key / value is refused anyway -/
+def WriteKeySafe (c : Cfg) (t : Tab) (a : KeyArg) : Prop := c.writeKeyRefuse = true ∨ t.ndim ≠ 0 ∨ a.kind ≠ 0
+
+theorem writeKey_spec (c : Cfg) (t : Tab) (cd : Option Nat) (a : KeyArg) (h : t.InvX) (hs : WriteKeySafe c t a) :
+    Spec t (writeKey c t cd a) := by
   unfold writeKey
   split
   · exact spec_unchanged h (by decide)
-  · rename_i h0
-    have h0 : t.ndim ≠ 0 := by simpa [Cfg.repaired] using h0
+  · rename_i hr0
     split
     · exact spec_unchanged h (by decide)
-    · split
+    · rename_i hk
+      have h0 : t.ndim ≠ 0 := by
+        rcases hs with h1 | h1 | h1
+        · intro e; exact hr0 ⟨h1, e⟩
+        · exact h1
+        · exact absurd h1 hk
+      split
       · rename_i i hi
         obtain ⟨pre, e, post, hsplit, hlen, hget⟩ := findIdx_some hi
         dsimp only
         by_cases hok : (runSteps cd [Step.a a.v] []).2.2.2 = true
         · rw [if_pos hok]
-          refine ⟨?_, by simp, by simp⟩
+          refine ⟨?_, by simp, by simp, fun hne => by simpa [Tab.apply] using hne⟩
           have hev : [Ev.a a.v, Ev.d (t.aux.getD i ⟨0, 0, 0⟩).v] = (runSteps cd [.a a.v] []).1 ++ [(t.aux.getD i ⟨0, 0, 0⟩).v].map .d := by
             cases cd with
             | none => simp [runSteps, dec]
@@ -335,75 +435,137 @@ theorem writeKey_spec (t : Tab) (cd : Option Nat) (a : KeyArg) (h : t.Inv) : Spe
           refine run_frees_inv h rfl rfl ?_ hok ?_
           · refine ⟨fun e => absurd e h0, fun _ => h.full h0, fun _ => ?_, h.sound⟩
             exact h.auxArr (by rw [hsplit]; simp)
-          · obtain ⟨ndim, dims, core, periods, auxArr, aux, ledger, bad, broken⟩ := t
+          · obtain ⟨ndim, dims, core, periods, auxArr, aux, ledger, bad, broken, noExt⟩ := t
             simp only at hsplit hget
             subst hsplit hlen
             simp only [hget]
             simp only [Tab.blocks, auxBlocks, auxEntryBlocks, net, Std.le_refl, set_append_right, Nat.sub_self, set_cons_zero,
               List.flatMap_append, List.flatMap_cons, List.length_append, List.length_cons]
             perm_count
-        · rw [if_neg hok]; exact ⟨h, fun _ => Or.inl rfl, by simp⟩
+        · rw [if_neg hok]; exact ⟨h, fun _ => Or.inl rfl, by simp, id⟩
       · rename_i hnone
         dsimp only
         by_cases hok : (runSteps cd [Step.a (8 * (t.aux.length + 1)), Step.a 16, Step.a a.k, Step.a a.v] []).2.2.2 = true
         · rw [if_pos hok]
-          refine ⟨?_, by simp, by simp⟩
+          refine ⟨?_, by simp, by simp, fun hne => by simpa [Tab.apply] using hne⟩
           have hfs : (if t.auxArr = true then [Ev.d (8 * t.aux.length)] else []) = (if t.auxArr = true then [8 * t.aux.length] else []).map .d := by
             split <;> rfl
           rw [hfs]
           refine run_frees_inv h rfl rfl ?_ hok ?_
           · exact ⟨fun e => absurd e h0, fun _ => h.full h0, fun _ => rfl, h.sound⟩
-          · obtain ⟨ndim, dims, core, periods, auxArr, aux, ledger, bad, broken⟩ := t
+          · obtain ⟨ndim, dims, core, periods, auxArr, aux, ledger, bad, broken, noExt⟩ := t
             cases auxArr <;>
             simp only [Tab.blocks, auxBlocks, auxEntryBlocks, net, List.flatMap_append, List.flatMap_cons, List.flatMap_nil,
               List.length_append, List.length_cons, List.length_nil, if_true, if_false, Bool.false_eq_true, Nat.zero_add] <;> perm_count
-        · rw [if_neg hok]; exact ⟨run_fail_inv h, fun _ => Or.inl rfl, by simp⟩
+        · rw [if_neg hok]; exact ⟨run_fail_inv h, fun _ => Or.inl rfl, by simp, fun hne => by simpa [Tab.apply] using hne⟩
 
-theorem removeKey_spec (t : Tab) (cd : Option Nat) (id : Nat) (h : t.Inv) : Spec t (removeKey Cfg.repaired t cd id) := by
+/-- `remove_key`: C20-6 is in, or the key is not there, or the smaller array is obtained -/
+def RemoveKeySafe (c : Cfg) (cd : Option Nat) (t : Tab) (id : Nat) : Prop :=
+  c.removeKeyFirst = true ∨ findIdx t.aux id = none ∨ Completes cd [.a (8 * (t.aux.length - 1))]
+
+theorem removeKey_spec (c : Cfg) (t : Tab) (cd : Option Nat) (id : Nat) (h : t.InvX) (hs : RemoveKeySafe c cd t id) :
+    Spec t (removeKey c t cd id) := by
   unfold removeKey
   split
   · exact spec_unchanged h (by decide)
   · rename_i i hi
     obtain ⟨pre, e, post, hsplit, hlen, hget⟩ := findIdx_some hi
-    simp only [show Cfg.repaired.removeKeyFirst = true from rfl, if_true]
-    by_cases hok : (runSteps cd [Step.a (8 * (t.aux.length - 1))] []).2.2.2 = true
-    · rw [if_pos hok]
-      refine ⟨?_, by simp, by simp⟩
-      have hne : t.aux ≠ [] := by rw [hsplit]; simp
-      have harr := h.auxArr hne
-      have hnd : t.ndim ≠ 0 := fun e0 => hne (h.empty e0).2.2.2.1
-      have hfs : [Ev.d (t.aux.getD i ⟨0, 0, 0⟩).k, Ev.d (t.aux.getD i ⟨0, 0, 0⟩).v, Ev.d 16, Ev.d (8 * t.aux.length)] =
-          [(t.aux.getD i ⟨0, 0, 0⟩).k, (t.aux.getD i ⟨0, 0, 0⟩).v, 16, 8 * t.aux.length].map .d := rfl
+    have hne : t.aux ≠ [] := by rw [hsplit]; simp
+    have harr := h.auxArr hne
+    have hnd : t.ndim ≠ 0 := fun e0 => hne (h.empty e0).2.2.2.1
+    have hfs : [Ev.d (t.aux.getD i ⟨0, 0, 0⟩).k, Ev.d (t.aux.getD i ⟨0, 0, 0⟩).v, Ev.d 16, Ev.d (8 * t.aux.length)] =
+        [(t.aux.getD i ⟨0, 0, 0⟩).k, (t.aux.getD i ⟨0, 0, 0⟩).v, 16, 8 * t.aux.length].map .d := rfl
+    dsimp only
+    by_cases hfirst : c.removeKeyFirst = true
+    · rw [if_pos hfirst]
+      by_cases hok : (runSteps cd [Step.a (8 * (t.aux.length - 1))] []).2.2.2 = true
+      · rw [if_pos hok]
+        refine ⟨?_, by simp, by simp, fun hx => by simpa [Tab.apply] using hx⟩
+        rw [hfs]
+        refine run_frees_inv h rfl rfl ?_ hok ?_
+        · exact ⟨fun e => absurd e hnd, fun _ => h.full hnd, fun _ => harr, h.sound⟩
+        · obtain ⟨ndim, dims, core, periods, auxArr, aux, ledger, bad, broken, noExt⟩ := t
+          simp only at hsplit hget harr
+          subst hsplit harr hlen
+          simp only [hget]
+          simp only [Tab.blocks, auxBlocks, auxEntryBlocks, net, List.eraseIdx_append_of_length_le (Nat.le_refl _),
+            Nat.sub_self, List.eraseIdx_cons_zero,
+            List.flatMap_append, List.flatMap_cons, List.length_append, List.length_cons, if_true]
+          have : pre.length + (post.length + 1) - 1 = pre.length + post.length := by omega
+          rw [this]
+          perm_count
+      · rw [if_neg hok]; exact ⟨h, fun _ => Or.inl rfl, by simp, fun hx => hx⟩
+    · rw [if_neg hfirst]
+      have hok : (runSteps cd [Step.a (8 * (t.aux.length - 1))] []).2.2.2 = true := by
+        rcases hs with h1 | h1 | h1
+        · exact absurd h1 hfirst
+        · rw [hi] at h1; cases h1
+        · exact h1
+      simp only [hok, Bool.not_true, if_true]
+      refine ⟨?_, by simp, by simp, fun hx => by simpa [Tab.apply] using hx⟩
       rw [hfs]
-      refine run_frees_inv h rfl rfl ?_ hok ?_
-      · exact ⟨fun e => absurd e hnd, fun _ => h.full hnd, fun _ => harr, h.sound⟩
-      · obtain ⟨ndim, dims, core, periods, auxArr, aux, ledger, bad, broken⟩ := t
+      -- the table after the call, before the events are applied to its ledger
+      have key := frees_run_inv (t := t) (t' := { t with aux := t.aux.eraseIdx i, broken := false, auxArr := true })
+        (cd := cd) (steps := [Step.a (8 * (t.aux.length - 1))])
+        (fs := [(t.aux.getD i ⟨0, 0, 0⟩).k, (t.aux.getD i ⟨0, 0, 0⟩).v, 16, 8 * t.aux.length])
+        (rest := (if t.core then (if t.noExtents then fixedBlocksNoExt t.ndim t.dims else fixedBlocks t.ndim t.dims) ++ knotBlocks t.dims else []) ++
+          (if t.periods then [8 * t.ndim] else []) ++ auxEntryBlocks (t.aux.eraseIdx i))
+        h rfl rfl ⟨fun e => absurd e hnd, fun _ => h.full hnd, fun _ => rfl, rfl⟩ hok ?_ ?_
+      · have e : ({ ({ t with aux := t.aux.eraseIdx i, broken := false } : Tab).apply
+            ([(t.aux.getD i ⟨0, 0, 0⟩).k, (t.aux.getD i ⟨0, 0, 0⟩).v, 16, 8 * t.aux.length].map Ev.d ++
+              (runSteps cd [Step.a (8 * (t.aux.length - 1))] []).1) with auxArr := true } : Tab) =
+            ({ t with aux := t.aux.eraseIdx i, broken := false, auxArr := true } : Tab).apply
+            ([(t.aux.getD i ⟨0, 0, 0⟩).k, (t.aux.getD i ⟨0, 0, 0⟩).v, 16, 8 * t.aux.length].map Ev.d ++
+              (runSteps cd [Step.a (8 * (t.aux.length - 1))] []).1) := rfl
+        rw [e]; exact key
+      · obtain ⟨ndim, dims, core, periods, auxArr, aux, ledger, bad, broken, noExt⟩ := t
         simp only at hsplit hget harr
         subst hsplit harr hlen
         simp only [hget]
+        simp only [Tab.blocks, auxBlocks, auxEntryBlocks, List.eraseIdx_append_of_length_le (Nat.le_refl _),
+          Nat.sub_self, List.eraseIdx_cons_zero,
+          List.flatMap_append, List.flatMap_cons, List.length_append, List.length_cons, if_true]
+        perm_count
+      · obtain ⟨ndim, dims, core, periods, auxArr, aux, ledger, bad, broken, noExt⟩ := t
+        simp only at hsplit hget harr
+        subst hsplit harr hlen
         simp only [Tab.blocks, auxBlocks, auxEntryBlocks, net, List.eraseIdx_append_of_length_le (Nat.le_refl _),
           Nat.sub_self, List.eraseIdx_cons_zero,
           List.flatMap_append, List.flatMap_cons, List.length_append, List.length_cons, if_true]
         have : pre.length + (post.length + 1) - 1 = pre.length + post.length := by omega
         rw [this]
         perm_count
-    · rw [if_neg hok]; exact ⟨h, fun _ => Or.inl rfl, by simp⟩
 
 
 theorem convDims_length (dims : List Dim) (dim nk : Nat) : (convDims dims dim nk).length = dims.length := by
   simp [convDims]
 
-theorem convolve_spec (t : Tab) (cd : Option Nat) (dim nk : Nat) (h : t.Inv) : Spec t (convolve Cfg.repaired t cd dim nk) := by
+/-- `convolve`: C20-5 is in, or the arguments are in range; the table has its `extents`, or the
+    arguments are refused before they are read; C20-4 is in, or the replacement arrays are obtained. -/
+def ConvSafe (c : Cfg) (cd : Option Nat) (t : Tab) (dim nk : Nat) : Prop :=
+  (c.convCheck = true ∨ (dim < t.ndim ∧ nk ≠ 0)) ∧ (t.noExtents = false ∨ t.ndim ≤ dim ∨ nk = 0) ∧
+  (c.convGuard = true ∨ Completes cd (convSteps t dim nk))
+
+theorem convolve_spec (c : Cfg) (t : Tab) (cd : Option Nat) (dim nk : Nat) (h : t.InvX) (hs : ConvSafe c cd t dim nk) :
+    Spec t (convolve c t cd dim nk) := by
+  obtain ⟨hs1, hs2, hs3⟩ := hs
   unfold convolve
   split
-  · simp only [show Cfg.repaired.convCheck = true from rfl, if_true]
+  · rename_i hbad
+    have : c.convCheck = true := hs1.resolve_right (by omega)
+    simp only [this, if_true]
     exact spec_unchanged h (by decide)
   · rename_i hd
+    have hne : t.noExtents = false := by
+      rcases hs2 with h1 | h1 | h1
+      · exact h1
+      · exact absurd (Or.inl h1) hd
+      · exact absurd (Or.inr h1) hd
     have hnd : t.ndim ≠ 0 := by omega
     obtain ⟨hcore, hlen⟩ := h.full hnd
+    rw [if_neg (show ¬ (t.noExtents = true) by rw [hne]; decide)]
     dsimp only
-    simp only [show Cfg.repaired.convGuard = true from rfl, if_true]
-    obtain ⟨hg, hlive⟩ := runSteps_good 0 ((4 * ncoef (convDims t.dims dim nk) :: knotBlocks (convDims t.dims dim nk)).map Step.a) cd []
+    obtain ⟨hg, hlive⟩ := runSteps_good 0 (convSteps t dim nk) cd []
       ([8 * t.ndim, 8 * t.ndim, 4 * t.ndim, 16 * t.ndim, 8 * t.ndim] ++
         (if t.periods then [8 * t.ndim] else []) ++ [8 * t.ndim, 8 * t.ndim] ++
         auxEntryBlocks t.aux ++ (if t.auxArr then [8 * t.aux.length] else []))
@@ -413,30 +575,36 @@ theorem convolve_spec (t : Tab) (cd : Option Nat) (dim nk : Nat) (h : t.Inv) : S
         (if t.periods then [8 * t.ndim] else []) ++ [8 * t.ndim, 8 * t.ndim] ++
         auxEntryBlocks t.aux ++ (if t.auxArr then [8 * t.aux.length] else [])) := by
       refine (Good.frees (4 * ncoef t.dims :: knotBlocks t.dims)).perm_left ?_
-      simp only [Tab.blocks, hcore, if_true, fixedBlocks, auxBlocks]
+      simp only [Tab.blocks, hcore, hne, if_true, fixedBlocks, auxBlocks, Bool.false_eq_true, if_false]
       cases t.periods <;> cases t.auxArr <;> simp only [if_true, if_false, Bool.false_eq_true] <;> perm_count
-    by_cases hok : (runSteps cd ((4 * ncoef (convDims t.dims dim nk) :: knotBlocks (convDims t.dims dim nk)).map Step.a) []).2.2.2 = true
-    · rw [if_pos hok]
-      refine ⟨?_, by simp, by simp⟩
-      refine inv_apply (t' := { t with dims := convDims t.dims dim nk }) (L := t.blocks) ?_ h.bad h.ledger (Good.append hfree hg) ?_
+    have hsucc : (runSteps cd (convSteps t dim nk) []).2.2.2 = true →
+        (({ t with dims := convDims t.dims dim nk } : Tab).apply
+          ((4 * ncoef t.dims :: knotBlocks t.dims).map Ev.d ++ (runSteps cd (convSteps t dim nk) []).1)).InvX := by
+      intro hok
+      refine invX_apply (t' := { t with dims := convDims t.dims dim nk }) (L := t.blocks) ?_ h.bad h.ledger (Good.append hfree hg) ?_
       · exact ⟨fun e => absurd e hnd, fun _ => ⟨hcore, by rw [convDims_length]; exact hlen⟩, h.auxArr, h.sound⟩
-      · rw [hlive hok, net_map_a]
-        simp only [Tab.blocks, hcore, if_true, fixedBlocks, auxBlocks]
+      · rw [hlive hok, convSteps, net_map_a]
+        simp only [Tab.blocks, hcore, hne, if_true, fixedBlocks, auxBlocks, Bool.false_eq_true, if_false]
         cases t.periods <;> cases t.auxArr <;> simp only [if_true, if_false, Bool.false_eq_true] <;> perm_count
+    by_cases hok : (runSteps cd (convSteps t dim nk) []).2.2.2 = true
+    · rw [if_pos hok]
+      exact ⟨hsucc hok, by simp, by simp, fun _ => by simpa [Tab.apply] using hne⟩
     · rw [if_neg hok]
-      refine ⟨?_, fun _ => Or.inr ?_, by simp⟩
-      · refine inv_apply (t' := { t with ndim := 0, dims := [], core := false, periods := false, auxArr := false, aux := [] })
+      have hguard : c.convGuard = true := hs3.resolve_right hok
+      simp only [hguard, if_true]
+      refine ⟨?_, fun _ => Or.inr ?_, by simp, fun hx => by simpa [Tab.apply] using hx⟩
+      · refine invX_apply (t' := { t with ndim := 0, dims := [], core := false, periods := false, auxArr := false, aux := [] })
           (L := t.blocks) (R := []) ?_ h.bad h.ledger ?_ ?_
-        · exact ⟨fun _ => ⟨rfl, rfl, rfl, rfl, rfl⟩, fun e => absurd rfl e, fun e => absurd rfl e, h.sound⟩
+        · exact ⟨fun _ => ⟨rfl, rfl, rfl, rfl, rfl, hne⟩, fun e => absurd rfl e, fun e => absurd rfl e, h.sound⟩
         · rw [List.append_assoc]
           refine Good.append hfree (Good.append hg ?_)
-          have := Good.frees (b := 0) (R := []) ((runSteps cd ((4 * ncoef (convDims t.dims dim nk) :: knotBlocks (convDims t.dims dim nk)).map Step.a) []).2.1 ++
+          have := Good.frees (b := 0) (R := []) ((runSteps cd (convSteps t dim nk) []).2.1 ++
             ([8 * t.ndim, 8 * t.ndim, 4 * t.ndim, 16 * t.ndim, 8 * t.ndim] ++
             (if t.periods then [8 * t.ndim] else []) ++ [8 * t.ndim, 8 * t.ndim] ++
             auxEntryBlocks t.aux ++ (if t.auxArr then [8 * t.aux.length] else [])))
           simpa using this
         · simp [Tab.blocks, auxBlocks, auxEntryBlocks]
-      · simp [Tab.apply, Tab.isEmpty, h.sound]
+      · simp [Tab.apply, Tab.isEmpty, h.sound, hne]
 
 theorem map_getD_range {α} (l : List α) (d : α) : (List.range l.length).map (fun j => l.getD j d) = l := by
   apply List.ext_getElem
@@ -449,29 +617,54 @@ theorem ncoef_perm {a b : List Dim} (p : a.Perm b) : ncoef a = ncoef b := by
   unfold ncoef
   exact (p.map _).foldr_eq' (fun x _ y _ z => by rw [Nat.mul_left_comm]) 1
 
-theorem permute_spec (t : Tab) (cd : Option Nat) (p : List Nat) (h : t.Inv) : Spec t (permute Cfg.repaired t cd p) := by
+/-- `permuteDimensions`: C20-8 is in, or the table is not empty, or the permutation is refused; the
+    table has its `extents`, or the permutation is refused before they are read. -/
+def PermSafe (c : Cfg) (t : Tab) (p : List Nat) : Prop :=
+  (c.permuteEmpty = true ∨ t.ndim ≠ 0 ∨ p.isPerm (List.range t.ndim) = false) ∧
+  (t.noExtents = false ∨ p.isPerm (List.range t.ndim) = false)
+
+theorem permute_spec (c : Cfg) (t : Tab) (cd : Option Nat) (p : List Nat) (h : t.InvX) (hs : PermSafe c t p) :
+    Spec t (permute c t cd p) := by
+  obtain ⟨hs1, hs2⟩ := hs
   unfold permute
   split
   · exact spec_unchanged h (by decide)
   · rename_i hp
+    have hpb : p.isPerm (List.range t.ndim) = true := by simpa using hp
     have hp : p.Perm (List.range t.ndim) := by simpa [List.isPerm_iff] using hp
+    have hne : t.noExtents = false := hs2.resolve_right (by simp [hpb])
     split
-    · exact spec_unchanged h (by simp [Cfg.repaired])
+    · rename_i h0
+      have : c.permuteEmpty = true := by
+        rcases hs1 with h1 | h1 | h1
+        · exact h1
+        · exact absurd h0 h1
+        · rw [hpb] at h1; cases h1
+      simp only [this, if_true]
+      exact spec_unchanged h (by decide)
     · rename_i hnd
       obtain ⟨hcore, hlen⟩ := h.full hnd
+      rw [if_neg (show ¬ (t.noExtents = true) by rw [hne]; decide)]
       have hd : (p.map fun j => t.dims.getD j ⟨0, 0, 0⟩).Perm t.dims := by
         have := hp.map (fun j => t.dims.getD j ⟨0, 0, 0⟩)
         rw [← hlen, map_getD_range] at this
         exact this
-      refine ⟨?_, by simp, by simp⟩
+      refine ⟨?_, by simp, by simp, fun _ => hne⟩
       refine { empty := fun e => absurd e hnd, full := fun _ => ⟨hcore, ?_⟩, auxArr := h.auxArr, sound := h.sound, ledger := ?_, bad := h.bad }
       · simp [hp.length_eq]
       · refine h.ledger.trans ?_
-        simp only [Tab.blocks, hcore, if_true, fixedBlocks, ncoef_perm hd]
+        simp only [Tab.blocks, hcore, hne, if_true, fixedBlocks, ncoef_perm hd, Bool.false_eq_true, if_false]
         have hk : (knotBlocks (p.map fun j => t.dims.getD j ⟨0, 0, 0⟩)).Perm (knotBlocks t.dims) := hd.map _
         exact ((Perm.refl _).append hk.symm).append_right _ |>.append_right _
 
-theorem destroy_spec (t : Tab) (h : t.Inv) : (destroy t).1.ledger = [] ∧ (destroy t).1.bad = 0 := by
+theorem getKey_spec (t : Tab) (cd : Option Nat) (id : Nat) (h : t.InvX) : Spec t (getKey t cd id) :=
+  ⟨h, fun _ => Or.inl rfl, by simp only [getKey]; split <;> simp, fun hx => hx⟩
+
+theorem writeFits_spec (t : Tab) (cd : Option Nat) (ioOk : Bool) (h : t.InvX) : Spec t (writeFits t cd ioOk) :=
+  ⟨h, fun _ => Or.inl rfl, by simp only [writeFits]; split <;> simp, fun hx => hx⟩
+
+/-- the destructor returns everything, exactly once — also for a table without `extents` -/
+theorem destroy_spec (t : Tab) (h : t.InvX) : (destroy t).1.ledger = [] ∧ (destroy t).1.bad = 0 := by
   unfold destroy
   rw [if_neg (by simp [h.sound])]
   split
@@ -479,187 +672,14 @@ theorem destroy_spec (t : Tab) (h : t.Inv) : (destroy t).1.ledger = [] ∧ (dest
   · rename_i hnd
     obtain ⟨hcore, hlen⟩ := h.full hnd
     dsimp only
-    have hg := Good.frees (b := 0) (R := []) (knotBlocks t.dims ++ [8 * t.ndim, 8 * t.ndim, 4 * t.ndim, 16 * t.ndim, 8 * t.ndim] ++
+    have hg := Good.frees (b := 0) (R := []) (knotBlocks t.dims ++ [8 * t.ndim, 8 * t.ndim, 4 * t.ndim] ++ extBlocks t.noExtents t.ndim ++
       (if t.periods then [8 * t.ndim] else []) ++ [4 * ncoef t.dims, 8 * t.ndim, 8 * t.ndim] ++
       auxEntryBlocks t.aux ++ (if t.auxArr then [8 * t.aux.length] else []))
     have hg' := hg.perm_left (L2 := t.ledger) (h.ledger.trans (by
-      simp only [Tab.blocks, hcore, if_true, fixedBlocks, auxBlocks, List.append_nil]
-      cases t.periods <;> cases t.auxArr <;> simp only [if_true, if_false, Bool.false_eq_true] <;> perm_count))
+      simp only [Tab.blocks, hcore, if_true, fixedBlocks, fixedBlocksNoExt, extBlocks, auxBlocks, List.append_nil]
+      cases t.periods <;> cases t.auxArr <;> cases t.noExtents <;> simp only [if_true, if_false, Bool.false_eq_true] <;> perm_count))
     rw [← h.bad] at hg'
     obtain ⟨h1, h2⟩ := Tab.apply_good hg'
     exact ⟨by simpa using h2, by rw [h1, h.bad]⟩
-
-
-/-! ### histories over several objects -/
-
-theorem World.mem_put {w : World} {i : Nat} {o x : Option Tab} (h : x ∈ (w.put i o).objs) :
-    x = o ∨ x ∈ w.objs ∨ x = none := by
-  simp only [World.put] at h
-  rcases List.mem_or_eq_of_mem_set h with h | h
-  · rcases List.mem_append.mp h with h | h
-    · exact Or.inr (Or.inl h)
-    · exact Or.inr (Or.inr (List.eq_of_mem_replicate h))
-  · exact Or.inl h
-
-theorem World.get_mem {w : World} {i : Nat} {t : Tab} (h : w.get i = some t) : some t ∈ w.objs := by
-  simp only [World.get, List.getD_eq_getElem?_getD] at h
-  cases hi : w.objs[i]? with
-  | none => simp [hi] at h
-  | some x =>
-    simp [hi] at h
-    subst h
-    exact List.mem_of_getElem? hi
-
-theorem World.get_put_same (w : World) (i : Nat) (o : Option Tab) : (w.put i o).get i = o := by
-  simp only [World.get, World.put, List.getD_eq_getElem?_getD]
-  rw [List.getElem?_set_self (by simp; omega)]
-  rfl
-
-theorem World.get_put_ne (w : World) {i j : Nat} (o : Option Tab) (h : i ≠ j) : (w.put i o).get j = w.get j := by
-  simp only [World.get, World.put, List.getD_eq_getElem?_getD]
-  rw [List.getElem?_set_ne h]
-  by_cases hj : j < w.objs.length
-  · rw [List.getElem?_append_left hj]
-  · rw [List.getElem?_append_right (by omega)]
-    have : w.objs[j]? = none := List.getElem?_eq_none (by omega)
-    rw [this]
-    cases hh : (List.replicate (i + 1 - w.objs.length) (none : Option Tab))[j - w.objs.length]? with
-    | none => rfl
-    | some x =>
-      have := List.mem_of_getElem? hh
-      rw [List.eq_of_mem_replicate this]
-      rfl
-
-/-- every live object satisfies its invariant; every object that died returned all memory exactly once -/
-structure World.Inv (w : World) : Prop where
-  live : ∀ t, some t ∈ w.objs → t.Inv
-  dead : ∀ r, r ∈ w.retired → r = ([], 0)
-
-theorem World.Inv.put {w : World} (h : w.Inv) (i : Nat) {o : Option Tab} (ho : ∀ t, o = some t → t.Inv) :
-    (w.put i o).Inv := by
-  refine ⟨fun t ht => ?_, h.dead⟩
-  rcases World.mem_put ht with e | e | e
-  · exact ho t e.symm
-  · exact h.live t e
-  · cases e
-
-theorem onTab_inv {w : World} {i : Nat} {f : Tab → Option Nat → Out} (h : w.Inv)
-    (hf : ∀ t, t.Inv → (f t w.cd).tab.Inv) : (onTab w i f).w.Inv := by
-  unfold onTab
-  cases hg : w.get i with
-  | none => exact h
-  | some t =>
-    have hi := h.live t (World.get_mem hg)
-    have := h.put i (o := some (f t w.cd).tab) (fun t' e => by cases e; exact hf t hi)
-    exact ⟨this.live, this.dead⟩
-
-theorem step_inv {w : World} (h : w.Inv) (op : Op) : (step Cfg.repaired w op).w.Inv := by
-  cases op with
-  | construct i =>
-    simp only [step]
-    cases hg : w.get i with
-    | some _ => exact h
-    | none => exact h.put i (fun t e => by cases e; exact Tab.empty_inv)
-  | constructFile i f =>
-    simp only [step]
-    cases hg : w.get i with
-    | some _ => exact h
-    | none =>
-      have hs := read_spec Tab.empty w.cd f Tab.empty_inv
-      dsimp only
-      split
-      · have := h.put i (o := some (read Cfg.repaired Tab.empty w.cd f).tab) (fun t e => by cases e; exact hs.1)
-        exact ⟨this.live, this.dead⟩
-      · rename_i hr
-        refine ⟨h.live, fun r hr' => ?_⟩
-        rcases List.mem_cons.mp hr' with e | e
-        · subst e
-          -- the read failed: the shape is unchanged (empty), so the ledger is empty
-          have hres : (read Cfg.repaired Tab.empty w.cd f).res = .threw := by
-            have hne := hs.2.2
-            cases hres : (read Cfg.repaired Tab.empty w.cd f).res <;> simp_all
-            all_goals
-              (unfold read at hres; simp only [show Cfg.repaired.readGuard = true from rfl] at hres
-               split at hres
-               · simp at hres
-               · split at hres
-                 · simp at hres
-                 · simp only [build] at hres
-                   split at hres <;> simp at hres)
-          have hsh := hs.2.1 hres
-          have hnd : (read Cfg.repaired Tab.empty w.cd f).tab.ndim = 0 := by
-            rcases hsh with e | e
-            · have := congrArg Prod.fst e; simpa [Tab.shape, Tab.empty] using this
-            · simp [Tab.isEmpty] at e; exact e.1.1.1.1.1.1
-          rw [hs.1.ledger_nil hnd, hs.1.bad]
-        · exact h.dead r e
-  | read i f => exact onTab_inv h fun t ht => (read_spec t _ f ht).1
-  | fit i a => exact onTab_inv h fun t ht => (fit_spec t _ a ht).1
-  | writeKey i a => exact onTab_inv h fun t ht => (writeKey_spec t _ a ht).1
-  | removeKey i id => exact onTab_inv h fun t ht => (removeKey_spec t _ id ht).1
-  | getKey i id => exact onTab_inv h fun t ht => ht
-  | convolve i dim nk => exact onTab_inv h fun t ht => (convolve_spec t _ dim nk ht).1
-  | permute i p => exact onTab_inv h fun t ht => (permute_spec t _ p ht).1
-  | writeFits i => exact onTab_inv h fun t ht => ht
-  | moveConstruct i j =>
-    simp only [step]
-    cases hi : w.get i with
-    | some _ => cases w.get j <;> exact h
-    | none =>
-      cases hj : w.get j with
-      | none => exact h
-      | some s =>
-        have hs := h.live s (World.get_mem hj)
-        exact (h.put i (o := some s) (fun t e => by cases e; exact hs)).put j (fun t e => by cases e; exact Tab.empty_inv)
-  | moveAssign i j =>
-    simp only [step]
-    cases hi : w.get i with
-    | none => cases w.get j <;> exact h
-    | some t =>
-      cases hj : w.get j with
-      | none => exact h
-      | some s =>
-        have ht := h.live t (World.get_mem hi)
-        have hs := h.live s (World.get_mem hj)
-        dsimp only
-        split
-        · exact h
-        · simp only [show Cfg.repaired.moveAssignRelease = true from rfl, if_true]
-          have h2 := (h.put i (o := some s) (fun t e => by cases e; exact hs)).put j (o := some Tab.empty) (fun t e => by cases e; exact Tab.empty_inv)
-          refine ⟨h2.live, fun r hr => ?_⟩
-          rcases List.mem_cons.mp hr with e | e
-          · subst e; obtain ⟨a, b⟩ := destroy_spec t ht; rw [a, b]
-          · exact h.dead r e
-  | compare i j =>
-    simp only [step]
-    cases hi : w.get i with
-    | none => cases w.get j <;> exact h
-    | some t =>
-      cases hj : w.get j with
-      | none => exact h
-      | some s =>
-        dsimp only
-        split
-        · exact h
-        · split <;> exact h
-  | destroy i =>
-    simp only [step]
-    cases hi : w.get i with
-    | none => exact h
-    | some t =>
-      have ht := h.live t (World.get_mem hi)
-      have h2 := h.put i (o := none) (fun t e => by cases e)
-      refine ⟨h2.live, fun r hr => ?_⟩
-      rcases List.mem_cons.mp hr with e | e
-      · subst e; obtain ⟨a, b⟩ := destroy_spec t ht; rw [a, b]
-      · exact h.dead r e
-
-theorem World.init_inv (cd : Option Nat) : (World.init cd).Inv :=
-  ⟨fun t h => by simp [World.init] at h, fun r h => by simp [World.init] at h⟩
-
-theorem run_inv {w : World} (h : w.Inv) (ops : List Op) : (run Cfg.repaired w ops).Inv := by
-  induction ops generalizing w with
-  | nil => exact h
-  | cons op ops ih => exact ih (step_inv h op)
 
 end PsV.Lifecycle
